@@ -6,8 +6,9 @@
    2. certificate fragments: lists of entries (pc, width, mode, bound), contiguity, the certificate
       built from such a list;
    3. entries that are acceptable in a FINAL program (F, K, G) = (code, constant pool, certificate)
-      given how the final code relates to the compiler's buffer `c_code st` (`ent_ok`), and how that
-      judgement is carried along while the compiler goes on (`keeps`);
+      given how the final code relates to the compiler's buffer `c_code st` (`ent_ok`: Verify.check_instr
+      passes there, and the entry's width is the width of the instruction the machine decodes there), and
+      how that judgement is carried along while the compiler goes on (`ent_ok_keeps`, `ent_ok_pstep`);
    4. patching a jump: the values written;
    5. how symbol table and constant pool evolve along compile_expression / compile_statement
       (`compile_mono`). *)
@@ -1134,3 +1135,6 @@ Proof.
     intros st st' H W. rewrite cs_continue in H. destruct (rev (c_loops st)); [discriminate H|].
     bok H pos Hp. injection H as <-. apply mono_same; [exact W|reflexivity..].
 Qed.
+
+Print Assumptions fold_patch_vals.
+Print Assumptions compile_mono.
